@@ -18,10 +18,12 @@
    produced by a constructor and any calls satisfies (pos <= elem, running product =
    closed product, cache = value of the current position, text offset on the chain of
    parsed numbers, slice = one segment of the buffer).
-   [nostr s]: every kind except the text iterator of iterator_string.c;
+   [nostr s]: every kind except the text iterator of iterator_string.c (whose cursor
+   [CStr] knows the end of an element only after it was read; it has its own walk
+   theorem and is covered by C19_history_refines / C19_clone_refines);
    [numeric s]: the kinds whose elements are numbers. *)
 From Coq Require Import ZArith NArith QArith List Bool.
-From MptV Require Import C19.IterModel C19.IterSpec C19.IterProofs C19.IterText C19.IterRefine
+From MptV Require Import C19.IterModel C19.IterSpec C19.IterProofs C19.IterText C19.IterString C19.IterRefine
   C19.IterClosed C19.IterGrammar.
 Import ListNotations.
 
@@ -71,8 +73,10 @@ Theorem C19_clone_replays :
     c = s /\ abs c = abs s /\ s_clone (abs s) = Some (abs c).
 Proof. exact clone_replays. Qed.
 
-(* Any interleaving of value/advance/reset/clone on the source and its clone:
-   results correspond call by call to the cursor's. *)
+(* Any interleaving of value/advance/reset/clone on the source and its clone, for EVERY
+   kind including the text iterator: results correspond call by call to the cursor's
+   ([omatch]: same element / none, return code of advance in the class the cursor
+   reports, reset >= 0, clone offered alike). *)
 Theorem C19_history_refines :
   forall (rnd : Q -> fv) ops st cst,
     srel rnd (fst st) (fst cst) -> srel rnd (snd st) (snd cst) -> forallb prim ops = true ->
@@ -87,6 +91,30 @@ Proof. exact build_fresh. Qed.
 
 Theorem C19_buffer_fresh : forall d args, inv_buf (mk_buffer d args).
 Proof. exact mk_buffer_inv. Qed.
+Theorem C19_text_fresh : forall t, inv_str (mk_string t).
+Proof. exact mk_string_inv. Qed.
+
+(* Clone of any kind: the clone stands for the cursor the specification's clone gives
+   (text iterator: a cursor over the remaining text only). *)
+Theorem C19_clone_refines :
+  forall (rnd : Q -> fv) s, inv rnd s ->
+    match it_clone s with
+    | Some c => inv rnd c /\ s_clone (abs s) = Some (abs c)
+    | None => s_clone (abs s) = None
+    end.
+Proof. exact gsim_clone. Qed.
+
+(* Text iterator (iterator_string.c) read as numbers: the documented loop yields exactly
+   the numbers of the text up to the first element that is no number, and ends with
+   a conversion error there, else cleanly.  [schain t p]: read results from offset p,
+   one separator byte skipped between elements. *)
+Theorem C19_text_walk_visits_exactly :
+  forall (rnd : Q -> fv) fuel m p, inv_str m -> s_val m = Some p ->
+    (length (schain (s_text m) p) <= fuel)%nat ->
+    let '(l, e, s') := it_walk rnd fuel (SStr m) [] in
+    l = str_numbers (schain (s_text m) p) /\ inv rnd s' /\
+    (if forallb isnum (schain (s_text m) p) then e = WDone else exists c, e = WConvErr c).
+Proof. exact text_walk_visits_exactly. Qed.
 
 (* Linear source in exact arithmetic: len elements, element i = a + i*(b-a)/(len-1)
    exactly; first = a, last = b, equal steps. *)
@@ -158,6 +186,9 @@ Print Assumptions C19_clone_replays.
 Print Assumptions C19_history_refines.
 Print Assumptions C19_build_fresh.
 Print Assumptions C19_buffer_fresh.
+Print Assumptions C19_text_fresh.
+Print Assumptions C19_clone_refines.
+Print Assumptions C19_text_walk_visits_exactly.
 Print Assumptions C19_linear_closed_form.
 Print Assumptions C19_linear_first.
 Print Assumptions C19_linear_last.
